@@ -90,8 +90,10 @@ def setOr (rank : α → α → Rank) (a b : List α) : R (List α) :=
   bindR (addValues rank [] a) fun r => addValues rank r b
 def setSans (rank : α → α → Rank) (a b : List α) : R (List α) :=
   bindR (addValues rank [] a) fun r => removeValues rank r b
-def setXor (rank : α → α → Rank) (a b : List α) : R (List α) :=
-  bindR (setSans rank a b) fun x => bindR (setSans rank b a) fun y => setOr rank x y
+/-- `Xor`: `Sans(second, first)` is computed under the second operand's collator `rank2`,
+    the final `Or` under the first one's -/
+def setXor (rank rank2 : α → α → Rank) (a b : List α) : R (List α) :=
+  bindR (setSans rank a b) fun x => bindR (setSans rank2 b a) fun y => setOr rank x y
 
 end SetM
 end CM
